@@ -431,6 +431,14 @@ type pairCase struct {
 	ref, inline *RunCase
 	groups      map[string][]string
 	rootType    string
+	la, lb      string // names of the two variants in messages
+}
+
+func (pc *pairCase) names() (string, string) {
+	if pc.la == "" {
+		return "with $ref", "inline"
+	}
+	return pc.la, pc.lb
 }
 
 func TestC10(t *testing.T) {
@@ -598,7 +606,8 @@ func evalPairs(c *core.Ctx, pairs []*pairCase, report func(pc *pairCase, j *core
 		}
 		if !rr.OK() {
 			b.refErr = rr.Err + rr.Panic
-			report(pc, nil, "ref-variant-rejected", "the inline schema generates but the factored variant fails: "+core.Clip(b.refErr, 300))
+			na, nb := pc.names()
+			report(pc, nil, "variant-rejected", "the "+nb+" variant generates but the "+na+" variant fails: "+core.Clip(b.refErr, 300))
 			continue
 		}
 		b.refSrc = rr.Sources["-"]
@@ -626,7 +635,8 @@ func evalPairs(c *core.Ctx, pairs []*pairCase, report func(pc *pairCase, j *core
 			continue
 		}
 		if b.pref.BuildErr != "" {
-			report(b.pc, nil, "ref-variant-buildfail", "the inline program builds but the factored variant does not: "+core.Clip(b.pref.BuildErr, 300))
+			na, nb := b.pc.names()
+			report(b.pc, nil, "variant-buildfail", "the "+nb+" program builds but the "+na+" variant does not: "+core.Clip(b.pref.BuildErr, 300))
 			continue
 		}
 		if c != nil {
@@ -650,20 +660,21 @@ func evalPairs(c *core.Ctx, pairs []*pairCase, report func(pc *pairCase, j *core
 			if c != nil {
 				c.Eval(1)
 			}
+			na, nb := b.pc.names()
 			if rr.Accepted() != ri.Accepted() {
-				report(b.pc, jr, "verdict-differs:"+jr.Label, fmt.Sprintf("verdict differs (%s): with $ref %s, inline %s; doc %s", jr.Label, rr.ErrText(), ri.ErrText(), core.Clip(jr.Doc, 200)))
+				report(b.pc, jr, "verdict-differs:"+jr.Label, fmt.Sprintf("verdict differs (%s): %s %s, %s %s; doc %s", jr.Label, na, rr.ErrText(), nb, ri.ErrText(), core.Clip(jr.Doc, 200)))
 				continue
 			}
 			if rr.Accepted() && rr.Remarshal != nil && ri.Remarshal != nil {
 				a, e1 := jv.Parse([]byte(*rr.Remarshal))
 				bb, e2 := jv.Parse([]byte(*ri.Remarshal))
 				if e1 == nil && e2 == nil && !jv.Equal(a, bb) {
-					report(b.pc, jr, "value-differs:"+jr.Label, fmt.Sprintf("decoded value differs: with $ref %s, inline %s", core.Clip(*rr.Remarshal, 200), core.Clip(*ri.Remarshal, 200)))
+					report(b.pc, jr, "value-differs:"+jr.Label, fmt.Sprintf("decoded value differs: %s %s, %s %s", na, core.Clip(*rr.Remarshal, 200), nb, core.Clip(*ri.Remarshal, 200)))
 					continue
 				}
 			}
 			if key, msg := stdJudge(jr, rr); key != "" {
-				report(b.pc, jr, "ref:"+key, "with $ref: "+msg)
+				report(b.pc, jr, "oracle:"+key, na+": "+msg)
 			}
 		}
 	}
